@@ -230,3 +230,19 @@ func VerifEndpointStates(s *ServantProxy) (out []VerifEpState, probeQueue int, c
 	}
 	return out, vm__.Len(em.checkAdapter), cursor
 }
+
+type verifDestroyer func()
+
+func (d verifDestroyer) Destroy() { d() }
+
+// VerifGracefulExit does what a server process does from the shutdown signal to its exit: the signal handler's
+// graceShutdown() (with destroy as the Destroy hook of a servant) in a goroutine of its own, the main loop's
+// wait for the shutdown notice, and then what Run does when the main loop has returned: its deferred
+// rogger.FlushLogger().
+func VerifGracefulExit(destroy func()) {
+	app := defaultApp
+	app.destroyableObjs = append(app.destroyableObjs, verifDestroyer(destroy))
+	vm__.GoNamed("signal-handler", func() { app.graceShutdown() })
+	vm__.Recv(app.shutdown)
+	rogger.FlushLogger()
+}
